@@ -54,6 +54,7 @@ type Sess struct {
 	Idling  *imapc.Result // non-nil while the session is in IDLE
 	Idx     int
 	Foreign int // snapshot changes that reached this session from another party since its last probe
+	Bulk    int // releases of two or more held-back updates at once (several updates processed between two flushes)
 }
 
 type Config struct {
@@ -502,6 +503,11 @@ func (w *World) Release(s *Sess, k int) int {
 		w.Label("gate:release")
 	}
 
+	if n > 1 {
+		s.Bulk++
+		w.Label("gate:release.bulk")
+	}
+
 	if w.Cfg.Deterministic {
 		w.Barrier()
 	}
@@ -674,4 +680,66 @@ func (w *World) Fresh(box string, withBody bool) ([]FreshMsg, uint32, uint32, bo
 	}
 
 	return res, uv, un, true, nil
+}
+
+// View probes the session without judging it (the Mirror is still maintained) and returns what the server answered.
+func (w *World) View(s *Sess) ([]bed.PMsg, error) {
+	var seen []bed.PMsg
+
+	_, err := s.Probe(func(msgs []bed.PMsg) error { seen = msgs; return nil })
+
+	return seen, err
+}
+
+// QuiescentDiff compares a session's view with the authoritative content of its mailbox (C02's oracle): same UIDs in
+// the same order with the same flags ignoring \Recent. The caller must have brought the world to quiescence
+// (ReleaseAll) and let the session flush (NOOP). It returns "" when they agree.
+func (w *World) QuiescentDiff(s *Sess) (string, error) {
+	view, err := w.View(s)
+	if err != nil {
+		return "", err
+	}
+
+	fresh, _, _, ok, err := w.Fresh(s.Selected, false)
+	if err != nil {
+		return "", err
+	}
+
+	if !ok {
+		return fmt.Sprintf("mailbox %s cannot be examined by a new session", s.Selected), nil
+	}
+
+	if len(view) != len(fresh) {
+		return fmt.Sprintf("session %s sees %d messages %v, a new session sees %d %v", s.Name, len(view), uidsOf(view), len(fresh), freshUIDs(fresh)), nil
+	}
+
+	for i := range view {
+		if view[i].UID != fresh[i].UID {
+			return fmt.Sprintf("position %d: session %s has UID %d, a new session has UID %d (view %v, fresh %v)", i+1, s.Name, view[i].UID, fresh[i].UID, uidsOf(view), freshUIDs(fresh)), nil
+		}
+
+		if vf := imapc.WithoutFlag(view[i].Flags, `\recent`); !imapc.SameFlags(vf, fresh[i].Flags) {
+			return fmt.Sprintf("UID %d: session %s has flags %v, a new session has %v", view[i].UID, s.Name, vf, fresh[i].Flags), nil
+		}
+	}
+
+	return "", nil
+}
+
+func uidsOf(v []bed.PMsg) []uint32 {
+	r := make([]uint32, len(v))
+	for i, m := range v {
+		r[i] = m.UID
+	}
+
+	return r
+}
+
+func freshUIDs(v []FreshMsg) []uint32 {
+	r := make([]uint32, len(v))
+	for i, m := range v {
+		r[i] = m.UID
+	}
+
+	return r
 }
